@@ -586,8 +586,11 @@ func streamPairs(w *W, rng *rand.Rand, tier string) {
 	if w.pairTag == 52 { // every pair is run under ~8 transformations
 		n /= 5
 	}
-	if w.pairTag == 53 && tier != "thorough" { // the containment oracle is the expensive one
+	if w.pairTag == 53 { // the containment oracle is the expensive one
 		n = n * 3 / 5
+		if tier == "thorough" {
+			n = 30000
+		}
 	}
 	for it := 0; it < n; it++ {
 		sc := int64(rng.Intn(3))
@@ -635,8 +638,11 @@ func streamPairs(w *W, rng *rand.Rand, tier string) {
 	if w.pairTag == 52 {
 		nm, nb = nm/5, nb/4
 	}
-	if w.pairTag == 53 && tier != "thorough" {
+	if w.pairTag == 53 {
 		nb = nb * 3 / 5
+		if tier == "thorough" {
+			nb = 150
+		}
 	}
 	streamMultiHole(w, rng, nm)
 	streamBigIndexed(w, rng, nb)
